@@ -37,7 +37,7 @@ structure Cfg where
 def nameStr (nm : Bytes) : List Char := ServeHTTP.chars nm
 
 /-- `t := p.Lookup(host); if t == nil → return; if t.AccessDeniedTCP(in) → return` -/
-def admit (cfg : Cfg) (t : Table) (peer : C12.TCPPeer) (nm : Bytes) : Option Target :=
+def gate (cfg : Cfg) (t : Table) (peer : C12.TCPPeer) (nm : Bytes) : Option Target :=
   match C03.LookupHost cfg.pick t (nameStr nm) with
   | some (_, tg) => if C12.accessDeniedTCP (ServeHTTP.rulesOf cfg.http tg) peer then none else some tg
   | none => none
@@ -47,7 +47,7 @@ def helloOf (script : Script) : Bytes := (sniServe codeCopySrc true [] script).h
 
 /-- `SNIProxy.ServeTCP` over the route table -/
 def sniSystem (cfg : Cfg) (t : Table) (peer : C12.TCPPeer) (script : Script) : SniRes :=
-  match (lookedUp (helloOf script)).bind (admit cfg t peer) with
+  match (lookedUp (helloOf script)).bind (gate cfg t peer) with
   | some tg => sniServe codeCopySrc true (cfg.proxyLine tg) script
   | none => sniServe codeCopySrc false [] script
 
@@ -105,7 +105,7 @@ theorem sni_tunnel_only_if (cfg : Cfg) (t : Table) (peer : C12.TCPPeer) (script 
   | some nm =>
     cases hk : C03.LookupHost cfg.pick t (nameStr nm) with
     | none =>
-      unfold sniSystem admit at ht
+      unfold sniSystem gate at ht
       rw [hl] at ht
       simp only [Option.bind_some, hk] at ht
       exact absurd ht (not_routed_no_tunnel _ _ _).1
@@ -113,13 +113,13 @@ theorem sni_tunnel_only_if (cfg : Cfg) (t : Table) (peer : C12.TCPPeer) (script 
       obtain ⟨ro, tg⟩ := rt
       cases hd : C12.accessDeniedTCP (ServeHTTP.rulesOf cfg.http tg) peer with
       | true =>
-        unfold sniSystem admit at ht
+        unfold sniSystem gate at ht
         rw [hl] at ht
         simp only [Option.bind_some, hk, hd, if_true] at ht
         exact absurd ht (not_routed_no_tunnel _ _ _).1
       | false =>
         have hsys : sniSystem cfg t peer script = sniServe codeCopySrc true (cfg.proxyLine tg) script := by
-          unfold sniSystem admit
+          unfold sniSystem gate
           rw [hl]
           simp only [Option.bind_some, hk, hd, Bool.false_eq_true, if_false]
         rw [hsys] at ht ⊢
@@ -150,7 +150,7 @@ theorem sni_denied_contacts_nobody (cfg : Cfg) (t : Table) (peer : C12.TCPPeer) 
   | none => simpa using not_routed_no_tunnel codeCopySrc [] script
   | some nm =>
     simp only [Option.bind_some]
-    unfold admit
+    unfold gate
     cases hk : C03.LookupHost cfg.pick t (nameStr nm) with
     | none => simpa using not_routed_no_tunnel codeCopySrc [] script
     | some rt =>
@@ -167,7 +167,7 @@ theorem sni_unrouted_contacts_nobody (cfg : Cfg) (t : Table) (peer : C12.TCPPeer
   | none => simpa using not_routed_no_tunnel codeCopySrc [] script
   | some nm =>
     simp only [Option.bind_some]
-    unfold admit
+    unfold gate
     rw [hno nm]
     exact not_routed_no_tunnel codeCopySrc [] script
 
@@ -239,7 +239,7 @@ theorem sni_system_end_to_end (cfg : Cfg) (t : Table) (peer : C12.TCPPeer)
   unfold sniSystem
   rw [hhello, hlook]
   simp only [Option.bind_some]
-  unfold admit
+  unfold gate
   rw [hk]
   simp only [hadm, Bool.false_eq_true, if_false]
   rw [← hprox (cfg.proxyLine tg)]
